@@ -47,6 +47,19 @@ for i in idx:
             for p, rc, keys, det in ex.map(runcheck, props):
                 if rc != 0:
                     fired[p] = (len(keys), keys[:2], det[:2])
+        if suite_ok and golden in ("pass", "n/a"):
+            dst = f"/verif/refactors/{R}-{i}"
+            os.makedirs(dst, exist_ok=True)
+            shutil.copy(patch, dst + "/patch.diff")
+            if os.path.exists(g):
+                shutil.copy(g, dst + "/golden_test.go.txt")
+            if os.path.exists(f"{d}/notes{i}.md"):
+                shutil.copy(f"{d}/notes{i}.md", dst + "/notes.md")
+            json.dump({"id": f"{R}-{i}", "kind": "behaviour-preserving change by an independent sub-agent (golden test passes on both trees)",
+                       "checks_that_fire": {p: {"reports": n, "first": [k[:200] for k in keys], "detail": det} for p, (n, keys, det) in fired.items()},
+                       "silent": not fired,
+                       "ran_at_repo_commit": subprocess.run(["git", "-C", "/repo", "rev-parse", "--short", "HEAD"], capture_output=True, text=True).stdout.strip()},
+                      open(dst + "/meta.json", "w"), indent=1)
         print(f"== {R} patch{i}: suite={'ok' if suite_ok else 'FAIL'} golden={golden} fired={sorted(fired)}")
         for p, (n, keys, det) in sorted(fired.items()):
             print(f"   {p}: {n} reports; e.g. {keys[0] if keys else ''}")
